@@ -48,6 +48,17 @@ func buildCorpus(seed uint64) []CorpusItem {
 	n := corpusSize()
 	pd := probeDocs()
 	items := make([]CorpusItem, 0, n)
+	// fixed items: every alternative of the grammar's root (paths without '$' that start with
+	// a filter, a bracket, a name), and the same raw text used under different escaping rules
+	// (a filter string literal vs. a quoted member name) - whatever residue an earlier call
+	// leaves, one of these is likely to pick it up
+	full := CfgSpec{Present: true, Funcs: 1<<nFuncs - 1}
+	for _, fp := range []string{
+		`[?(@.a == 1)]`, `[?(@.b)].a`, `[?(@.a > 1)].b`, `a`, `a.b`, `list[0].a`, `['a']`, `["c"][0]`, `[0]`, `[*]`, `*`, `[0,1]`,
+		`$['k\tv']`, `$[?(@.b == 'k\tv')]`, `$["k\tv"]`, `$[?(@.b == "k\tv")]`, `$['\u0061']`, `$[?(@.b == '\u0061')]`, `$.list[?(@.b == 'x')]`, `$['x']`,
+	} {
+		items = append(items, CorpusItem{Path: fp}, CorpusItem{Path: fp, Cfg: full})
+	}
 	for len(items) < n {
 		cfg := genCfg(true)
 		var p *PathSpec
@@ -122,6 +133,7 @@ func probeDocs() []interface{} {
 			"x":    map[string]interface{}{"a": map[string]interface{}{"b": []interface{}{0.0, 1.0}}}},
 		[]interface{}{map[string]interface{}{"a": 1.0, "b": 1.0}, map[string]interface{}{"a": "a", "c": []interface{}{}}, []interface{}{1.0, 2.0, 3.0}, "s", nil},
 		map[string]interface{}{"a": []interface{}{[]interface{}{1.0, 2.0}, []interface{}{3.0}}, "b": map[string]interface{}{"a": true}},
+		map[string]interface{}{"k\tv": "tab-member", "ktv": "t-member", "a": map[string]interface{}{"b": "ktv"}, "x": map[string]interface{}{"b": "k\tv"}, "y": map[string]interface{}{"b": "a"}},
 	}
 }
 
